@@ -1543,7 +1543,40 @@ class DiameterMessage:
 
 
     def __setitem__(self, idx: int, value: DiameterAVP) -> None:
+        old = self._avps[idx]
         self._avps[idx] = value
+
+        #: Keeps the named attribute and the Diameter Message Length field 
+        #: in line with the replaced list slot.
+        if isinstance(old, DiameterAVP) and isinstance(value, DiameterAVP):
+            bound = False
+            for key, item in list(self.__dict__.items()):
+                if key == "_avps":
+                    continue
+                if item is value:
+                    bound = True
+                elif item is old:
+                    self.__dict__.pop(key)
+
+            if not bound:
+                #: Same naming rule as the append method.
+                avp_name = loader.get_avp_class_name(value)
+                if avp_name == "Unknown":
+                    avp_name = avp_look_up(value)
+
+                avp_key = f"{avp_name.replace('-', '_').lower()}_avp"
+                if avp_key in self.__dict__:
+                    index = 0
+                    for key in self.__dict__.keys():
+                        if avp_key in key:
+                            index += 1
+                    while f"{avp_key}__{index}" in self.__dict__:
+                        index += 1
+                    avp_key = f"{avp_key}__{index}"
+
+                self.__dict__.update({avp_key: value})
+
+            self.refresh()
 
 
     @property
